@@ -23,16 +23,44 @@ def values_part(pid, tier):
     return divs, cov
 
 
-PARTS = {'element': _elem.element_part, 'values': values_part}
+def doc_part(pid, tier):
+    from .. import campaign_doc
+    r = campaign_doc.run_campaign(tier)
+    divs = [dict(key=d['key'], cls=d['cls'], what=d['what'], replay=d['replay']) for d in r['divergences'] if d['pid'] == pid]
+    per_clause = {c: v for c, v in r['counts'].items() if c.startswith(pid + '_')}
+    cov = dict(states=r['gen_states'] + r['tv_states'], transitions=r['gen_transitions'] + r['tv_states'],
+               traces_validated_against_impl=r['events'], evaluations=r['events'],
+               distinct_nontrivial=max(per_clause.values()) if per_clause else 0,
+               rule='TLC (DocumentGen) supplies one valid child word per follow edge of every content model; harness/schemadoc.py (schema tables only, '
+                    'no library) builds documents from them (bare and wrapped into a minimal score-partwise), plus all-attribute and exterior-blank variants, '
+                    'single-edit mutants, the repository\'s MusicXML files; API-built trees of all 441 element classes for the round trip and deep-copy scenarios. '
+                    'Each scenario is a distinct recorded event judged by TLC (DocumentTrace); distinct_nontrivial = events exercising the most-exercised clause of this property, counted by TLC',
+               exercised_per_clause=per_clause, scenarios=r['opcount'], cover_words=r['cover_words'], files=r['files'],
+               skipped_elements=r['skipped'], params=r['params'], campaign_cache_hit=r['cache_hit'], campaign_wall_s=r['wall'],
+               samples=r['samples'][:6])
+    return divs, cov
+
+
+PARTS = {'element': _elem.element_part, 'values': values_part, 'doc': doc_part}
 SOURCES = {
     'C04': ['values'], 'C05': ['values'],
-    'C10': ['element', 'values'], 'C15': ['element', 'values'], 'C16': ['element', 'values'], 'C19': ['element', 'values'],
+    'C08': ['doc'], 'C09': ['doc'], 'C14': ['doc'],
+    'C10': ['element', 'values'], 'C15': ['element', 'values'], 'C16': ['element', 'values'], 'C19': ['element', 'values', 'doc'],
 }
 ASSUME_VALUES = [
     'oracle: simple-type tables and pattern automata generated from the pinned XSD; lexical spaces defined in spec/Lexical.tla (guarded by LexicalTest examples)',
     'namespaced attributes are offered under the library\'s Python spelling (local name) and judged under their schema name on the parsed output',
     'undeclared names probed: names the schema declares for other types (incl. those colliding with Python members: name, type, id, number) and one nonsense name',
     '\\c / \\i: tokens use only code points on which XML 1.0 2e and 5e agree; xs:date years restricted to four digits',
+]
+
+
+ASSUME_DOC = [
+    'infosets are read with xml.etree (the standard XML parser of the properties); tails are kept, comments / PIs are not content',
+    'documents for C09 are generated from spec/schema.json only (harness/schemadoc.py never imports the library); xlink:* / xml:* attributes are written in their namespaced form',
+    '"insignificant white space" is read as the schema reads it: element-only content, and values of types whose whiteSpace facet is collapse; exterior blanks of free xs:string text are content',
+    'no-silent-loss allows the parser to re-order children (multiset matching of subtrees), not to drop or alter them',
+    'the exception class the parser uses for input it refuses is not judged',
 ]
 
 
@@ -59,7 +87,7 @@ def run_multi(pid, tier, replay=None):
         d, c = PARTS[src](pid, tier)
         divs += d
         covs.append((src, c))
-        assume += _elem.ASSUME if src == 'element' else ASSUME_VALUES
+        assume += _elem.ASSUME if src == 'element' else (ASSUME_VALUES if src == 'values' else ASSUME_DOC)
     return common.conclude(pid, tier, divs, merge(covs), t0, assumptions=assume)
 
 
